@@ -145,6 +145,10 @@ struct ViolationRec {
 struct Slot {
     start_ms: AtomicU64, // 0 = idle
     info: Mutex<(String, Vec<u8>, u64)>,
+    /// enumerated sections: position of the running case in this worker's partition
+    enum_idx: AtomicU64,
+    /// a regression replay is running on this slot: the case itself
+    regress_case: Mutex<Option<Value>>,
 }
 
 /// Case journal for runs that can die without unwinding (AddressSanitizer aborts): when VERIF_JOURNAL_DIR is set every
@@ -264,7 +268,7 @@ impl Report {
                 }
             }
         }
-        let slots: Arc<Vec<Slot>> = Arc::new((0..threads).map(|_| Slot { start_ms: AtomicU64::new(0), info: Mutex::new((String::new(), Vec::new(), 0)) }).collect());
+        let slots: Arc<Vec<Slot>> = Arc::new((0..threads).map(|_| Slot { start_ms: AtomicU64::new(0), info: Mutex::new((String::new(), Vec::new(), 0)), enum_idx: AtomicU64::new(0), regress_case: Mutex::new(None) }).collect());
         let rep = Arc::new(Report {
             id,
             tier,
@@ -315,7 +319,16 @@ impl Report {
                     let _ = std::fs::create_dir_all(format!("{}/replays", rep.verif_dir));
                     let _ = std::fs::write(
                         &path,
-                        serde_json::to_string_pretty(&json!({"property": rep.id, "section": info.0, "kind": "watchdog", "bytes_hex": hex(&info.1), "index": info.2})).unwrap(),
+                        // random sections: the choice bytes; enumerated sections: the position in the worker's partition (the enumeration is a
+                        // pure function of (worker, workers), so the replay regenerates the case)
+                        serde_json::to_string_pretty(&if let Some(case) = s.regress_case.lock().unwrap().clone() {
+                            json!({"property": rep.id, "section": info.0, "kind": "watchdog", "case": case})
+                        } else if info.1.is_empty() {
+                            json!({"property": rep.id, "section": info.0, "kind": "watchdog", "tier": rep.tier.name(), "enum": {"worker": i, "workers": rep.threads, "index": s.enum_idx.load(Ordering::Relaxed)}})
+                        } else {
+                            json!({"property": rep.id, "section": info.0, "kind": "watchdog", "bytes_hex": hex(&info.1), "index": info.2})
+                        })
+                        .unwrap(),
                     );
                     outln!("INCONCLUSIVE property={} watchdog: a case in section {} ran longer than {} s; saved {}", rep.id, info.0, limit_ms / 1000, path);
                     std::process::exit(2);
@@ -453,7 +466,18 @@ impl Report {
             }
             match serde_json::from_value::<C>(val.clone()) {
                 Ok(c) => {
+                    // regression replays run on the calling thread before the workers start: slot 0 is theirs for the watchdog
+                    let slot = &self.slots[0];
+                    {
+                        let mut g = slot.info.lock().unwrap();
+                        g.0 = section.to_string();
+                        g.1.clear();
+                    }
+                    *slot.regress_case.lock().unwrap() = Some(val.clone());
+                    slot.start_ms.store(self.start.elapsed().as_millis() as u64 + 1, Ordering::Relaxed);
                     let out = run(&c);
+                    slot.start_ms.store(0, Ordering::Relaxed);
+                    *slot.regress_case.lock().unwrap() = None;
                     let mut o2 = out.clone();
                     o2.labels.push("regress-replay");
                     self.account(section, &mut local, &c, &o2);
@@ -616,6 +640,29 @@ impl Report {
         G: Fn(usize, usize) -> I + Sync,
         R: Fn(&C) -> Outcome + Sync,
     {
+        if let Some((sec, val)) = &self.replay {
+            if sec == section {
+                if let Some(e) = val.get("__enum") {
+                    // a watchdog file of an enumerated section: regenerate the case from its position
+                    let (w, n, i) = (e["worker"].as_u64().unwrap_or(0) as usize, e["workers"].as_u64().unwrap_or(1) as usize, e["index"].as_u64().unwrap_or(0) as usize);
+                    match gen(w, n.max(1)).nth(i) {
+                        Some(case) => {
+                            outln!("DECODED {}", serde_json::to_string(&case).unwrap_or_default());
+                            let out = run(&case);
+                            match &out.failure {
+                                Some(f) => {
+                                    outln!("REPLAY property={} section={} outcome=FAIL signature={}\n  detail: {}", self.id, section, f.signature, f.detail);
+                                    self.record_violation(section, f, serde_json::to_value(&case).unwrap_or(Value::Null), None);
+                                }
+                                None => outln!("REPLAY property={} section={} outcome=pass labels={:?}", self.id, section, out.labels),
+                            }
+                        }
+                        None => outln!("REPLAY property={} section={} no case at worker {} of {} index {}", self.id, section, w, n, i),
+                    }
+                    return;
+                }
+            }
+        }
         if self.replay_only::<C, R>(section, &run) {
             return;
         }
@@ -641,6 +688,7 @@ impl Report {
                         if self.stop.load(Ordering::Relaxed) {
                             break;
                         }
+                        slot.enum_idx.store(idx, Ordering::Relaxed);
                         slot.start_ms.store(self.start.elapsed().as_millis() as u64 + 1, Ordering::Relaxed);
                         journal(self.id, section, w, &case);
                         let out = run(&case);
